@@ -27,6 +27,10 @@ RULE = ("scripts = agenda (<= 9 timed environment actions: byte arrivals incl. b
         "without a wake-up fd; fixed boundary enumeration + corpus (D14, D15, D16 histories) + seeded random. "
         "non-trivial = distinct scripts in which at least one request returned something or raised")
 ASSUMPTIONS = [
+    "entering the context must not discard input the tty has already received: the model has no notion of tcsetattr's `when` "
+    "(MainOp.reenter is a no-op on its state) - the simulation's fake termios/tty discards the OS buffer on TCSAFLUSH and the "
+    "real-pty scenario types ahead before each `with`; any trigger callback may be parked inside its event constructor (it holds "
+    "the queue's list object, has not appended yet) while the main thread runs requests",
     "the verdict does not depend on private attributes of Input: the simulated Input is entered through the real __enter__ (fake "
     "termios/tty/signal/os.pipe), SIGINT reaches the handler Input installed with signal.signal; internal queues are READ when they "
     "exist in the expected shape (sharper, per-request conservation) and otherwise the ledger judges the returned values and drains "
@@ -117,6 +121,19 @@ TS_TIMEOUT = 10.0
 
 class TsAbort(BaseException):
     pass
+
+
+class CtorCall:
+    """a trigger callback running in a helper thread, parked inside the event's constructor: the callback has already
+    evaluated `self.<queue>.append` (it holds the list object) but has not appended yet"""
+
+    def __init__(self, eid):
+        self.eid = eid
+        self.passed = False
+        self.reached = threading.Event()
+        self.go = threading.Event()
+        self.done = threading.Event()
+        self.thread = None
 
 
 class TsCall:
@@ -211,7 +228,7 @@ class _Nonblocking:
 
 class _Termios:
     """enough of termios/tty for Input.__enter__/__exit__ on the fake stream (their real behaviour is C12's subject)"""
-    TCSANOW = 0
+    TCSANOW, TCSADRAIN, TCSAFLUSH = 0, 1, 2
     VSTOP, VSTART, VSUSP = 9, 8, 10
     error = OSError
 
@@ -221,13 +238,15 @@ class _Termios:
 
     @staticmethod
     def tcsetattr(stream, when, attrs):
-        pass
+        if when == _Termios.TCSAFLUSH:
+            ENV.tty_flush()
 
 
 class _Tty:
     @staticmethod
-    def setcbreak(stream, when=0):
-        pass
+    def setcbreak(stream, when=2):          # tty.setcbreak's default is TCSAFLUSH, as in the standard library
+        if when == _Termios.TCSAFLUSH:
+            ENV.tty_flush()
 
 
 class _Signal:
@@ -310,7 +329,8 @@ class Env:
                     pass
         finally:
             self.entering = False
-        self.trig = [self.inp.event_trigger(lambda id, k=k: Ev(id, "q%d" % k)) for k in range(2)]
+        self.ctor_calls = {}           # eid -> CtorCall (callbacks parked in the event constructor)
+        self.trig = [self.inp.event_trigger(lambda id, k=k: (self.ctor_gate(), Ev(id, "q%d" % k))[1]) for k in range(2)]
         # GIL model of list.sort: only if the scheduled events really are a plain list attribute that can be replaced
         try:
             if type(self.inp.queued_scheduled_events) is list and not self.inp.queued_scheduled_events:
@@ -319,10 +339,28 @@ class Env:
                 self.uninstrumented.add("queued_scheduled_events is not a plain list: no sort to preempt")
         except Exception:  # noqa: BLE001
             self.uninstrumented.add("queued_scheduled_events is not a settable list: no sort to preempt")
-        self.sched = self.inp.scheduled_event_trigger(lambda when: SEv(when, self.next_sched_id))
-        self.ts = [self.inp.threadsafe_event_trigger(lambda id, p=p: Ev(id, "i%d" % p)) for p in range(case["npipes"])]
+        self.sched = self.inp.scheduled_event_trigger(lambda when: (self.ctor_gate(), SEv(when, self.cur_sched_id()))[1])
+        self.ts = [self.inp.threadsafe_event_trigger(lambda id, p=p: (self.ctor_gate(), Ev(id, "i%d" % p))[1])
+                   for p in range(case["npipes"])]
 
     # ---- fake OS ----
+    def tty_flush(self):
+        """tcsetattr(..., TCSAFLUSH): the kernel discards input that was received but not read"""
+        if self.osbuf:
+            self.log.append(("flushed", bytes(self.osbuf)))
+            del self.osbuf[:]
+
+    def reenter(self):
+        """the application leaves the Input context and enters it again (between two requests)"""
+        try:
+            self.inp.__exit__(None, None, None)
+            self.entering = True
+            self.inp.__enter__()
+        except Exception as e:  # noqa: BLE001
+            self.uninstrumented.add("re-entering the context under the simulated OS raised %s" % type(e).__name__)
+        finally:
+            self.entering = False
+
     def os_pipe(self):
         if self.entering:                      # Input.__enter__: the signal wake-up pipe
             return WAKE_FD, WAKE_FD + 1
@@ -357,8 +395,70 @@ class Env:
             raise TsAbort()
         return len(data)
 
+    # ---- any trigger callback parked inside its event constructor (agenda items P/Q, E/F, V) ----
+    def ctor_gate(self):
+        call = getattr(threading.current_thread(), "ctor_call", None)
+        if call is not None and not call.passed:
+            call.passed = True
+            call.reached.set()
+            if not call.go.wait(TS_TIMEOUT):
+                raise TsAbort()
+
+    def cur_sched_id(self):
+        call = getattr(threading.current_thread(), "ctor_call", None)
+        return call.eid if call is not None else self.next_sched_id
+
+    def ctor_start(self, eid, fn, ts_call=None):
+        """run fn() in a helper thread until it is inside the event constructor (or finished)"""
+        call = CtorCall(eid)
+        self.ctor_calls[eid] = call
+
+        def body():
+            threading.current_thread().ctor_call = call
+            if ts_call is not None:
+                threading.current_thread().ts_call = ts_call
+            try:
+                fn()
+            except TsAbort:
+                pass
+            except BaseException as e:  # noqa: BLE001
+                self.bad.append("trigger callback raised %s" % type(e).__name__)
+            finally:
+                call.reached.set()
+                call.done.set()
+                if ts_call is not None:
+                    ts_call.state = "done"
+                    self.log.append(("ts_done", "i%d" % ts_call.p, ts_call.eid))
+                    ts_call.reached.set()
+                    ts_call.wrote.set()
+                    ts_call.done.set()
+        call.thread = threading.Thread(target=body, daemon=True)
+        call.thread.start()
+        if not call.reached.wait(TS_TIMEOUT):
+            self.bad.append("trigger callback did not reach the event constructor")
+        return call
+
+    def ctor_finish(self, eid):
+        call = self.ctor_calls.get(eid)
+        if call is None:
+            self.bad.append("no callback is parked in the constructor of event %d" % eid)
+            return
+        call.go.set()
+        if not call.done.wait(TS_TIMEOUT):
+            self.bad.append("trigger callback did not finish")
+
     # ---- thread-safe callbacks: run in a helper thread, stepped by the agenda items tsA / tsB / tsC ----
     def ts_start(self, p, eid):
+        parked = self.ctor_calls.get(eid)
+        if parked is not None and not parked.go.is_set() and getattr(parked, "ts_call", None) is not None:
+            # the callback was started earlier (V) and is parked in the event constructor: let it go on to its os.write
+            call = parked.ts_call
+            self.ts_calls[p].append(call)
+            self.log.append(("ts_start", "i%d" % p, eid))
+            parked.go.set()
+            if not call.reached.wait(TS_TIMEOUT):
+                self.bad.append("thread-safe callback did not reach os.write")
+            return
         call = TsCall(p, eid)
         self.ts_calls[p].append(call)
         self.log.append(("ts_start", "i%d" % p, eid))
@@ -402,6 +502,12 @@ class Env:
 
     def ts_cleanup(self):
         """release every helper still parked (script ended / aborted)"""
+        for c in self.ctor_calls.values():
+            tc = getattr(c, "ts_call", None)
+            if tc is not None:
+                tc.go_write.set()
+                tc.go_finish.set()
+            c.go.set()
         for calls in self.ts_calls:
             for c in calls:
                 c.go_write.set()
@@ -410,6 +516,9 @@ class Env:
             for c in calls:
                 if c.thread is not None:
                     c.thread.join(TS_TIMEOUT)
+        for c in self.ctor_calls.values():
+            if c.thread is not None:
+                c.thread.join(TS_TIMEOUT)
 
     def os_read(self, fd, n):
         if fd == STDIN_FD:
@@ -483,6 +592,20 @@ class Env:
             self.log.append(("schedule", item[2], item[3]))
             self.next_sched_id = item[3]
             self.sched(item[2])
+        elif kind == "P":              # a scheduled callback starts in another thread and is parked in the constructor
+            self.ctor_start(item[3], lambda: self.sched(item[2]))
+        elif kind == "Q":              # ... it goes on: the event is appended now
+            self.log.append(("schedule", item[2], item[3]))
+            self.ctor_finish(item[3])
+        elif kind == "E":              # the same for an event_trigger callback
+            self.ctor_start(item[2], lambda: self.trig[item[2] % 2](id=item[2]))
+        elif kind == "F":
+            self.log.append(("trigger", "q%d" % (item[2] % 2), item[2]))
+            self.ctor_finish(item[2])
+        elif kind == "V":              # a thread-safe callback parked in the constructor, before its append (then X, Y, W)
+            tc = TsCall(item[2], item[3])
+            cc = self.ctor_start(item[3], lambda: self.ts[item[2]](id=item[3]), ts_call=tc)
+            cc.ts_call = tc
         elif kind == "X":
             self.ts_start(item[2], item[3])
         elif kind == "Y":
@@ -548,6 +671,9 @@ class Env:
         for op in self.case["ops"]:
             if op[0] == "d":
                 self.advance(op[1])
+                continue
+            if op[0] == "x":
+                self.reenter()
                 continue
             if observer:
                 observer.start(self, op[1])
@@ -619,6 +745,14 @@ def enc_result(r):
 
 def enc_item(it):
     t, k = it[0], it[1]
+    # a callback parked in its event constructor has not done anything yet as far as the model is concerned (a no-op item);
+    # the append happens when it goes on
+    if k in "PEV":
+        return "W%d:0" % t
+    if k == "Q":
+        return "S%d:%d:%d" % (t, it[2], it[3])
+    if k == "F":
+        return "T%d:%d" % (t, it[2])
     if k in "AU":
         return "%s%d:%s" % (k, t, it[2] or "-")
     if k in "TYGW":
@@ -629,6 +763,8 @@ def enc_item(it):
 
 
 def enc_op(op):
+    if op[0] == "x":
+        return "x"
     return "r" + wire.enc_optint(op[1]) if op[0] == "r" else "d%d" % op[1]
 
 
@@ -1291,14 +1427,36 @@ def rand_case(r):
     for p in pend_done:
         t += r.choice([0, 0, 1, 4])
         agenda.append((t, "W", p))
+    # a callback from another thread parked INSIDE its event constructor while the main thread goes on (P..Q scheduled,
+    # E..F event_trigger, V before X thread-safe): the append lands later, on the list object fetched earlier
+    if r.random() < 0.2:
+        for i in sorted([i for i, a in enumerate(agenda) if a[1] in ("S", "T")][:2], reverse=True):
+            if r.random() < 0.5:
+                a = agenda[i]
+                j = min(len(agenda), i + 1 + r.randint(0, 3))
+                tj = agenda[j - 1][0]
+                if a[1] == "S":
+                    agenda[i] = (a[0], "P", a[2], a[3])
+                    agenda.insert(j, (tj, "Q", a[2], a[3]))
+                else:
+                    agenda[i] = (a[0], "E", a[2])
+                    agenda.insert(j, (tj, "F", a[2]))
+        x_idx = [i for i, a in enumerate(agenda) if a[1] == "X"]
+        if x_idx and r.random() < 0.3:
+            i = x_idx[0]
+            j = max(0, i - r.randint(0, 2))
+            agenda.insert(j, (agenda[j][0] if j < len(agenda) else 0, "V", agenda[i][2], agenda[i][3]))
     s_idx = [i for i, a in enumerate(agenda) if a[1] == "S"]
     if len(s_idx) >= 3 and r.random() < 0.3:
         i = s_idx[-1]                      # another thread schedules while >= 2 events are queued: may hit a sort
         agenda[i] = (agenda[i][0], "K") + tuple(agenda[i][2:])
     ops = []
     for _ in range(r.randint(1, 12)):
-        if r.random() < 0.25:
+        x = r.random()
+        if x < 0.25:
             ops.append(("d", r.choice([0, 0, 1, 2, 7])))
+        elif x < 0.29:
+            ops.append(("x",))       # the application leaves the context and enters it again
         else:
             ops.append(("r", r.choice([None, 0, 0, 1, 3, 3, 10, 10])))
     return dict(thr=thr, wake=int(wake), npipes=npipes, agenda=agenda, ops=ops)
@@ -1317,6 +1475,19 @@ def corpus():
              ops=[("d", 0), ("r", 0), ("d", 7), ("r", 0), ("r", 0), ("r", 0), ("r", 0)], tag="corpus"),
         dict(thr=8, wake=1, npipes=0, agenda=[(0, "S", 9, 0), (0, "S", 9, 1), (2, "A", "61"), (3, "K", 1, 2)],
              ops=[("d", 0), ("r", 5), ("r", 5), ("d", 9), ("r", 0), ("r", 0), ("r", 0)], tag="corpus"),
+        # type-ahead: bytes the tty has received before the context is (re-)entered must still come back (seeded C08-r5m1:
+        # tty.setcbreak without TCSANOW = TCSAFLUSH discards them)
+        dict(thr=8, wake=1, npipes=0, agenda=[(0, "A", "6162")], ops=[("d", 0), ("x",), ("r", 0), ("r", 0), ("r", 0)], tag="corpus"),
+        dict(thr=8, wake=1, npipes=0, agenda=[(0, "A", "61"), (3, "A", "e282ac")],
+             ops=[("d", 0), ("r", 0), ("d", 3), ("x",), ("x",), ("r", 0), ("r", 0)], tag="corpus"),
+        # a scheduled callback of another thread parked in its event constructor while a request sorts the queue (seeded
+        # C08-r5m2: `queued_scheduled_events = sorted(...)` rebinds the attribute, the parked callback appends to the orphan)
+        dict(thr=8, wake=1, npipes=0, agenda=[(0, "S", 5, 0), (0, "P", 3, 1), (2, "Q", 3, 1)],
+             ops=[("d", 0), ("r", 0), ("d", 2), ("d", 7), ("r", 0), ("r", 0), ("r", 0)], tag="corpus"),
+        dict(thr=8, wake=1, npipes=0, agenda=[(0, "S", 9, 0), (1, "P", 2, 1), (3, "Q", 2, 1)],
+             ops=[("r", 2), ("r", 2), ("d", 9), ("r", 0), ("r", 0), ("r", 0)], tag="corpus"),
+        dict(thr=8, wake=1, npipes=1, agenda=[(0, "E", 0), (0, "V", 0, 1), (1, "F", 0), (1, "X", 0, 1), (2, "Y", 0), (2, "W", 0)],
+             ops=[("d", 0), ("r", 0), ("r", 5), ("r", 5), ("r", 0)], tag="corpus"),
         # D12 (C03's finding) seen from C08: Esc then a non-ASCII character available together
         dict(thr=8, wake=1, npipes=0, agenda=[(0, "A", "1bc3a9")], ops=[("d", 0), ("r", 0), ("r", 0), ("r", 0)], tag="D12"),
         # D35: ill-formed UTF-8 in mid-stream: c3 then 'A' - the valid 'A' is lost with it
@@ -1594,12 +1765,40 @@ def real_eof():
         real_os.close(r)
 
 
+def real_typeahead():
+    """bytes the tty received BEFORE the context is entered, and between two `with` blocks, come back (a TCSAFLUSH on entry
+    would discard them)"""
+    m, sl = real_os.openpty()
+
+    def body():
+        problems, got = [], []
+        inp = cinput.Input(in_stream=_FdStream(sl), keynames="bytes")
+        real_os.write(m, b"ab")
+        with inp:
+            got += [inp.send(0.3), inp.send(0.3), inp.send(0)]
+        real_os.write(m, b"cd")
+        with inp:
+            got += [inp.send(0.3), inp.send(0.3), inp.send(0)]
+        real_os.write(m, b"e")
+        with cinput.Input(in_stream=_FdStream(sl), keynames="bytes", sigint_event=True, disable_terminal_start_stop=True) as inp2:
+            got += [inp2.send(0.3), inp2.send(0)]
+        if got != [b"a", b"b", None, b"c", b"d", None, b"e", None]:
+            problems.append("typed ab before the first `with`, cd before the second, e before a third: requests returned %r" % (got,))
+        return problems
+    try:
+        return _guarded(10, body)
+    finally:
+        real_os.close(m)
+        real_os.close(sl)
+
+
 def real_checks(ctx):
     n = 20 if ctx.thorough else 3
     scen = [("mixed sigint_event=True seed %d" % i, lambda i=i: real_mixed(ctx.seed * 1000 + i)) for i in range(n)]
     scen += [("mixed in a non-main thread seed %d" % i, lambda i=i: real_mixed(ctx.seed * 1000 + 500 + i, in_thread=True))
              for i in range(max(1, n // 4))]
-    scen += [("KeyboardInterrupt during a blocked request", real_keyboard_interrupt), ("EOF", real_eof)]
+    scen += [("KeyboardInterrupt during a blocked request", real_keyboard_interrupt), ("EOF", real_eof),
+             ("type-ahead before entering the context", real_typeahead)]
     for name, fn in scen:
         try:
             probs = fn()
